@@ -1,5 +1,6 @@
 import IkeProofs.RefineEap.Crypto
 import IkeProofs.Theorems.C08
+import IkeProofs.RefineSa.Transfer
 
 /-! # C08: the prf+ its key material comes from is the code as translated (`security/lib.PrfPlus`) -/
 
@@ -11,5 +12,59 @@ theorem C08_gen_prfplus_is_model (P : Prims) (hP : P.Lawful) (prf : Go.Mac) (s :
     (Gen.lib.PrfPlus P prf s (n : Int)).map (fun r => (absMac r.1, r.2)) =
       (match prfPlus P (absMac prf) s n with | (h', .ok b) => Res.ok (h', b) | (_, .err) => Res.err | (_, .fault) => Res.fault) :=
   PrfPlus_refines_lawful P hP prf s n
+
+/-! ### `security.(*ChildSAKey).GenerateKeyForChildSA` as translated from `security/security.go` -/
+
+open Ike.RefineSa Ike.GenAbsSa in
+/-- the translated `GenerateKeyForChildSA` IS the model's `genKeyForChildSA` — for every state of the IKE SA's
+`Prf_d` object (any buffer earlier derivations left), every registered Child SA descriptor pair, every nonce -/
+theorem C08_gen_child_is_model (P : Prims) (hP : P.Lawful) (k : Gen.security.IKESAKey) (c : Gen.security.ChildSAKey)
+    (hprf : k.PrfInfo ≠ .nil_) (hd : Go.Mac.isNil k.Prf_d = false)
+    (he : c.EncrKInfo = .EncrAesCbc ⟨16⟩ ∨ c.EncrKInfo = .EncrAesCbc ⟨24⟩ ∨ c.EncrKInfo = .EncrAesCbc ⟨32⟩)
+    (hi : c.IntegKInfo = .nil_ ∨ c.IntegKInfo = .AuthHmacMd5_95 ⟨16, 12⟩ ∨ c.IntegKInfo = .AuthHmacSha1_96 ⟨20, 12⟩ ∨
+      c.IntegKInfo = .AuthHmacSha2_256_128 ⟨32, 16⟩) (nonce : Bytes) :
+    (Gen.security.ChildSAKey.GenerateKeyForChildSA P (some c) (some k) nonce).map (fun x => (absSa x.2, absChild x.1)) =
+      (match genKeyForChildSA P (absSa k) (absChild c) nonce with
+       | (sa', .ok c') => .ok (sa', c') | (_, .err) => .err | (_, .fault) => .fault) :=
+  GenerateKeyForChildSA_refines P hP k c hprf hd he hi nonce
+
+open Ike.RefineSa Ike.GenAbsSa in
+/-- C08, KEYMAT over the translated code: a newly allocated Child SA object (empty key fields) receives, from an
+IKE SA whose `Prf_d` is in ANY state, exactly the RFC 7296 §2.17 slices of prf+(K, Ni|Nr), K the key of `Prf_d`,
+in the order encr i→r, integ i→r, encr r→i, integ r→i -/
+theorem C08_gen_keymat (P : Prims) (hP : P.Lawful) (k : Gen.security.IKESAKey) (c : Gen.security.ChildSAKey)
+    (hprf : k.PrfInfo ≠ .nil_) (hd : Go.Mac.isNil k.Prf_d = false)
+    (he : c.EncrKInfo = .EncrAesCbc ⟨16⟩ ∨ c.EncrKInfo = .EncrAesCbc ⟨24⟩ ∨ c.EncrKInfo = .EncrAesCbc ⟨32⟩)
+    (hi : c.IntegKInfo = .nil_ ∨ c.IntegKInfo = .AuthHmacMd5_95 ⟨16, 12⟩ ∨ c.IntegKInfo = .AuthHmacSha1_96 ⟨20, 12⟩ ∨
+      c.IntegKInfo = .AuthHmacSha2_256_128 ⟨32, 16⟩)
+    (hnew : c.InitiatorToResponderEncryptionKey = [] ∧ c.ResponderToInitiatorEncryptionKey = [] ∧
+      c.InitiatorToResponderIntegrityKey = [] ∧ c.ResponderToInitiatorIntegrityKey = [])
+    (nonce : Bytes) (hL : 0 < P.macLen k.Prf_d.h) (hpos : 0 < absEncrKLen c.EncrKInfo + (absIntegKLen c.IntegKInfo).getD 0) :
+    ∃ c' k', Gen.security.ChildSAKey.GenerateKeyForChildSA P (some c) (some k) nonce = .ok (c', k') ∧
+      let spec := Spec.keymat (P.mac k.Prf_d.h) (P.macLen k.Prf_d.h) k.Prf_d.key nonce
+        (absEncrKLen c.EncrKInfo) ((absIntegKLen c.IntegKInfo).getD 0)
+      c'.InitiatorToResponderEncryptionKey = spec.ei ∧ c'.InitiatorToResponderIntegrityKey = spec.ai ∧
+      c'.ResponderToInitiatorEncryptionKey = spec.er ∧ c'.ResponderToInitiatorIntegrityKey = spec.ar := by
+  have hr := GenerateKeyForChildSA_refines P hP k c hprf hd he hi nonce
+  have hc : absChild c = { encrKeyLen := absEncrKLen c.EncrKInfo, integKeyLen := absIntegKLen c.IntegKInfo } := by
+    unfold absChild; rw [hnew.1, hnew.2.1, hnew.2.2.1, hnew.2.2.2]
+  have hm := C08_keymat_obj P hP (absSa k) (absEncrKLen c.EncrKInfo) (absIntegKLen c.IntegKInfo) nonce hL hpos
+  simp only at hm
+  rw [hc] at hr
+  cases hg : genKeyForChildSA P (absSa k) { encrKeyLen := absEncrKLen c.EncrKInfo, integKeyLen := absIntegKLen c.IntegKInfo } nonce with
+  | mk sa' res =>
+    rw [hg] at hr hm
+    simp only at hm
+    subst hm
+    obtain ⟨x, hx, hf⟩ := map_eq_ok hr
+    obtain ⟨c', k'⟩ := x
+    simp only [Prod.mk.injEq] at hf
+    have h2 := hf.2
+    refine ⟨c', k', hx, ?_⟩
+    have e1 := congrArg ChildSAKey.i2rEncr h2
+    have e2 := congrArg ChildSAKey.i2rInteg h2
+    have e3 := congrArg ChildSAKey.r2iEncr h2
+    have e4 := congrArg ChildSAKey.r2iInteg h2
+    exact ⟨e1, e2, e3, e4⟩
 
 end Ike
